@@ -40,13 +40,18 @@ fn fix_divert_paths(value: &mut Value, old_path: &str, new_path: &str) {
 /// Move the `g-N` continuations of a labelled gather's container up into the enclosing weave
 /// container `out`. Every labelled gather numbers its continuations from `g-0`, so a name that
 /// the weave already holds is renumbered to the next free one (as inklecate's per-weave count of
-/// unnamed gathers does) instead of replacing the earlier gather.
+/// unnamed gathers does) instead of replacing the earlier gather. The same holds for the name
+/// that `fallback_continuation` points to: loose ends are sent there, so it is not free either.
 fn hoist_gather_continuations(
     out: &mut EmittedContainer,
     sub_container: &mut EmittedContainer,
     sub_scope: &EmitScope,
     scope: &EmitScope,
+    fallback_continuation: Option<&str>,
 ) {
+    let reserved = fallback_continuation
+        .and_then(|path| path.strip_prefix(scope.path.as_str()))
+        .and_then(|rest| rest.strip_prefix('.'));
     let g_keys: Vec<String> = sub_container
         .named
         .keys()
@@ -56,7 +61,9 @@ fn hoist_gather_continuations(
     let mut hoisted: Vec<(String, String)> = Vec::new();
     for key in g_keys {
         let taken = |name: &str| {
-            out.named.contains_key(name) || hoisted.iter().any(|(_, used)| used == name)
+            out.named.contains_key(name)
+                || hoisted.iter().any(|(_, used)| used == name)
+                || reserved == Some(name)
         };
         let mut new_key = key.clone();
         let mut n = 0;
@@ -530,7 +537,13 @@ fn emit_nodes_with_continuation(
                         context,
                         fallback_continuation,
                     )?;
-                    hoist_gather_continuations(&mut out, &mut sub_container, &sub_scope, scope);
+                    hoist_gather_continuations(
+                        &mut out,
+                        &mut sub_container,
+                        &sub_scope,
+                        scope,
+                        fallback_continuation,
+                    );
                     let gather_path = format!("{}.{}", scope.path, label);
                     let count_flags = gather_count_flags(&gather_path, context);
                     out.push(sub_container.into_json_array(Some(label), count_flags)?);
@@ -597,7 +610,13 @@ fn emit_nodes_with_continuation(
                         sub_container.push(token);
                     }
 
-                    hoist_gather_continuations(&mut out, &mut sub_container, &sub_scope, scope);
+                    hoist_gather_continuations(
+                        &mut out,
+                        &mut sub_container,
+                        &sub_scope,
+                        scope,
+                        fallback_continuation,
+                    );
 
                     let gather_path = format!("{}.{}", scope.path, gather_label);
                     let count_flags = gather_count_flags(&gather_path, context);
